@@ -25,7 +25,7 @@ ASSUMPTIONS = [
 ]
 UNVERIFIED = [
     "_minimize (combination of the two passes: needs the chunk/division lemmas), MinimizerSelector / SyncmerSelector / MincodeSelector drivers",
-    "kmeralphabet.pyx create_kmers, permutation.pyx, kmersimilarity.pyx",
+    "kmeralphabet.pyx _create_continuous_kmers (rolling update: needs the telescoping lemma of the radix weights), fuse / split, permutation.pyx, kmersimilarity.pyx",
 ]
 OUT_OF_REACH = ["kmertable.pyx (KmerTable / BucketKmerTable): positions live in malloc'ed C arrays addressed through a uint64 array -- "
                 "outside the extraction subset, and no contract over Python-visible state can say what a bucket contains"]
@@ -137,3 +137,92 @@ bounded = bounded_via_script("C10")
 ASSUMPTIONS.append("bounded stand-in (labelled, not a proof) for everything outside the two proved kernels (k-mer decomposition, direct and bucketed tables incl. "
                    "all constructors, pickling, matching with masks and similarity rules, minimizer / syncmer / mincode selectors): the compiled code vs naive "
                    "definitions on all DNA sequences of length <= 4 (5 thorough) and seeded random reference sets (bounded/C10.py)")
+
+
+# ==========================================================================
+# kmeralphabet.pyx::KmerAlphabet._create_spaced_kmers  (boundscheck(False), wraparound(False))
+#
+#   SK(i, j) = sum over t < j of radix_multiplier[t] * code[i + spacing[t]]
+#   contract: kmers[i] == SK(i, k) for every window i; AlphabetError iff a visited code is outside
+#   the base alphabet; ValueError iff the sequence is shorter than the k-mer span; every
+#   memoryview access is in bounds for any strictly increasing non-negative spacing model
+
+KA = "sequence/align/kmeralphabet.pyx"
+SK = z3.Function("SK", z3.IntSort(), z3.IntSort(), z3.IntSort())
+
+
+def setup_spaced(code_t):
+    def setup(I):
+        from pyvc.api import get_class
+        from pyvc.heap import Obj
+        cls = get_class(I, KA, "KmerAlphabet")
+        k = sym_int(I, "k", 2, 64)
+        n = sym_int(I, "n", 0, 2 ** 31 - 2)
+        asz = sym_int(I, "alphabet_length", 1, 2 ** 16)
+        spacing = SymArr("_spacing", "int64", [k], readonly=True)
+        rm = SymArr("_radix_multiplier", "int64", [k], readonly=True)
+        code = SymArr("seq_code", code_t, [n], readonly=True).view(memview=True)
+        S, RM, C = spacing.arr, rm.arr, code.arr
+        t, t2, i = z3.Ints("t!s t2!s i!s")
+        A = I.ctx.assume
+        # representation invariant of a KmerAlphabet with a spacing model (what __init__ establishes)
+        A(z3.Select(S, 0) >= 0)
+        A(z3.ForAll([t, t2], z3.Implies(z3.And(t >= 0, t < t2, t2 < k), z3.Select(S, t) < z3.Select(S, t2))))
+        A(z3.Select(S, k - 1) <= 2 ** 20)
+        A(z3.ForAll([i], SK(i, 0) == 0))
+        A(z3.ForAll([i, t], z3.Implies(t >= 0, SK(i, t + 1) == SK(i, t) + z3.Select(RM, t) * z3.Select(C, i + z3.Select(S, t)))))
+        base = SymArr("_base_alph", None, [asz])             # only its length is used
+        obj = Obj(cls, {"_k": k, "_spacing": spacing, "_radix_multiplier": rm, "_base_alph": base})
+        span = z3.Select(S, k - 1) + 1
+        g = {"k": k, "n": n, "asz": asz, "S": S, "RM": RM, "C": C, "span": span, "nk": n - span + 1}
+        I.ghost["sp"] = g
+        return {"args": [obj, code], "ghost": g}
+    return setup
+
+
+def inv_spaced_outer(I, env):
+    g = I.ghost["sp"]
+    i = zint(I.unC(env.lookup("i")))
+    K = env.lookup("kmers").arr
+    q, t = z3.Ints("q!o t!o")
+    return z3.And(i >= 0, i <= g["nk"], z3.ForAll([q], z3.Implies(z3.And(q >= 0, q < i), z3.Select(K, q) == SK(q, g["k"]))),
+                  z3.ForAll([q, t], z3.Implies(z3.And(q >= 0, q < i, t >= 0, t < g["k"]),
+                                               z3.Select(g["C"], q + z3.Select(g["S"], t)) < g["asz"])))
+
+
+def inv_spaced_inner(I, env):
+    g = I.ghost["sp"]
+    i = zint(I.unC(env.lookup("i")))
+    j = zint(I.unC(env.lookup("j")))
+    K = env.lookup("kmers").arr
+    q, t = z3.Ints("q!i t!i")
+    return z3.And(i >= 0, i < g["nk"], j >= 0, j <= g["k"], zint(I.unC(env.lookup("kmer"))) == SK(i, j),
+                  z3.ForAll([q], z3.Implies(z3.And(q >= 0, q < i), z3.Select(K, q) == SK(q, g["k"]))),
+                  z3.ForAll([q, t], z3.Implies(z3.And(q >= 0, q < i, t >= 0, t < g["k"]),
+                                               z3.Select(g["C"], q + z3.Select(g["S"], t)) < g["asz"])),
+                  z3.ForAll([t], z3.Implies(z3.And(t >= 0, t < j), z3.Select(g["C"], i + z3.Select(g["S"], t)) < g["asz"])))
+
+
+def ens_spaced(I, env):
+    g = I.ghost["sp"]
+    res = env.vars["result"]
+    q = I.ctx.fresh_int("q")
+    return [("length", natives.eq(I, res.shape[0], g["nk"])),
+            ("codes", implies(z3.And(q >= 0, q < g["nk"]), z3.Select(res.arr, q) == SK(q, g["k"])))]
+
+
+def bad_code(I, env):
+    g = I.ghost["sp"]
+    i, t = z3.Ints("i!b t!b")
+    # (if the sequence is shorter than the span there is no window: the range of i is empty)
+    return z3.Exists([i, t], z3.And(i >= 0, i < g["nk"], t >= 0, t < g["k"],
+                                    z3.Select(g["C"], i + z3.Select(g["S"], t)) >= g["asz"]))
+
+
+for _t in ("uint8", "uint32"):
+    CASES.append(Case(KA + "::KmerAlphabet._create_spaced_kmers", f"CodeType={_t}", setup=setup_spaced(_t), overflow=False,
+                      raises={"ValueError": lambda I, env: I.ghost["sp"]["n"] < I.ghost["sp"]["span"], "AlphabetError": bad_code},
+                      loops={0: {"invariant": [inv_spaced_outer]}, 1: {"invariant": [inv_spaced_inner]}},
+                      ensures=[("spaced_kmers", ens_spaced)], timeout=20))
+ASSUMPTIONS.append("_create_spaced_kmers: int64 arithmetic on k-mer codes does not overflow (alphabet_length ** k < 2**63 is what makes a KmerAlphabet usable); "
+                   "SK is the partial-sum ghost defined by its two recursion equations; the spacing model is strictly increasing and non-negative (checked by __init__)")
